@@ -146,6 +146,18 @@ static void sb_fill(sb_t *s, int c, size_t n) { for (size_t i = 0; i < n; i++) {
 static const char *PREWORDS[] = { "snap", "pre", "alpha", "beta", "rc" };
 static const char *OTHERWORDS[] = { "a", "b", "p", "final", "patch", "rel", "x", "dev", "Final", "P", "git", "z", "fin", "finals", "patched", "release", "pat", "de" };
 
+/* suffix words are matched without regard to case: a quarter of them are spelled with capitals (all, first letter, or mixed) */
+static void sb_add_word(sb_t *s, const char *w)
+{
+    int mode = vh_coin(25) ? (int) vh_range(1, 3) : 0;
+    for (size_t i = 0; w[i]; i++) {
+        char c = w[i];
+        if (c >= 'a' && c <= 'z' && (mode == 1 || (mode == 2 && i == 0) || (mode == 3 && vh_coin(50)))) c = (char) (c - 'a' + 'A');
+        sb_add(s, &c, 1);
+    }
+    if (mode) vh_count("suffix_words_with_capitals", 1);
+}
+
 static void gen_number(sb_t *s)
 {
     char t[40];
@@ -165,7 +177,7 @@ static void gen_wf(sb_t *s, wf_shape_t *sh)
     for (int i = 0; i < sh->ncomp; i++) { if (i) sb_adds(s, "."); gen_number(s); }
     sh->word = -1; sh->has_num = 0;
     if (vh_coin(55)) {
-        if (vh_coin(70)) { sh->word = (int) vh_below(5); sb_adds(s, PREWORDS[sh->word]); }
+        if (vh_coin(70)) { sh->word = (int) vh_below(5); sb_add_word(s, PREWORDS[sh->word]); }
         else { sh->word = 5; sb_adds(s, OTHERWORDS[vh_below(sizeof OTHERWORDS / sizeof *OTHERWORDS)]); }
         if (vh_coin(60)) { sh->has_num = 1; gen_number(s); }
     }
@@ -194,7 +206,7 @@ static void gen_wf_variant(const char *a, sb_t *s)
     case 1: sb_add(s, a, hl); sb_adds(s, "."); gen_number(s); if (vh_coin(30)) sb_adds(s, suf); break;   /* one more component */
     case 2: {                                                                        /* other suffix word, same number */
         sb_add(s, a, hl);
-        if (vh_coin(70)) sb_adds(s, PREWORDS[vh_below(5)]); else sb_adds(s, OTHERWORDS[vh_below(sizeof OTHERWORDS / sizeof *OTHERWORDS)]);
+        if (vh_coin(70)) sb_add_word(s, PREWORDS[vh_below(5)]); else sb_adds(s, OTHERWORDS[vh_below(sizeof OTHERWORDS / sizeof *OTHERWORDS)]);
         const char *d = suf; while (klass((unsigned char) *d) == K_ALPHA) d++;
         if (*d && vh_coin(70)) sb_adds(s, d); else if (vh_coin(40)) gen_number(s);
         break;
